@@ -919,7 +919,11 @@ class NetCDFWrite(IOWrite):
         """Write a list variable to the netCDF file."""
         g = self.write_vars
 
-        create = not self._already_in_file(list_variable)
+        # A list variable can only be shared with an equal list
+        # variable that compresses the same netCDF dimensions
+        extra = {"compress": compress}
+
+        create = not self._already_in_file(list_variable, attributes=extra)
 
         if create:
             ncvar = self._create_netcdf_variable_name(
@@ -931,12 +935,11 @@ class NetCDFWrite(IOWrite):
                 ncvar, f, size=self.implementation.get_data_size(list_variable)
             )
 
-            extra = {"compress": compress}
-
             # Create a new list variable
             self._write_netcdf_variable(
                 ncvar, (ncvar,), list_variable, None, extra=extra
             )
+            g["seen"][id(list_variable)]["attributes"] = extra
 
             self.implementation.nc_set_variable(list_variable, ncvar)  # Why?
         else:
@@ -1146,7 +1149,9 @@ class NetCDFWrite(IOWrite):
 
         return geometry_container
 
-    def _already_in_file(self, variable, ncdims=None, ignore_type=False):
+    def _already_in_file(
+        self, variable, ncdims=None, ignore_type=False, attributes=None
+    ):
         """True if a variable already exists in g['seen'].
 
         Specifically, returns True if a variable is logically equal any
@@ -1180,6 +1185,18 @@ class NetCDFWrite(IOWrite):
 
             ignore_type: `bool`, optional
 
+            attributes: `dict`, optional
+                The netCDF attributes that give the netCDF variable
+                its meaning over and above its data and properties,
+                such as the ``compress`` attribute of a list
+                variable. If set then an extra condition for equality
+                is applied, namely that a variable in the g['seen']
+                dictionary must have been written with the same
+                attributes.
+
+                *Parameter example:*
+                  ``{'compress': 'lat lon'}``
+
         :Returns:
 
             `bool`
@@ -1198,6 +1215,14 @@ class NetCDFWrite(IOWrite):
                 # the 'seen' dictionary
                 continue
 
+            if attributes is not None and attributes != value.get(
+                "attributes"
+            ):
+                # The netCDF variable in the 'seen' dictionary was
+                # written with different defining attributes, so it
+                # does not mean the same thing as the input variable
+                continue
+
             # Still here?
             if self.implementation.equal_components(
                 variable, value["variable"], ignore_type=ignore_type
@@ -1207,6 +1232,9 @@ class NetCDFWrite(IOWrite):
                     "ncvar": value["ncvar"],
                     "ncdims": value["ncdims"],
                 }
+                if "attributes" in value:
+                    seen[id(variable)]["attributes"] = value["attributes"]
+
                 return True
 
         return False
